@@ -1521,6 +1521,7 @@ static void decode_case(Src &s, Case &c) {
   if (cfg.stratum >= 0) { kind = (cfg.stratum / N_CLASSES) % K_COUNT; nclass = cfg.stratum % N_CLASSES; }
   if (cfg.thorough && nclass == 5 && s.below(4) == 0) nclass = 6;
   if (cfg.param == "scale") nclass = 7;
+  if (cfg.param == "hugelcp") nclass = 8;
   c.p.kind = kind;
   bool table_kind = kind == K_HHTFC || kind == K_HTFC;  // F06/F07: explored where they work
   c.S = gen_strings(s, nclass, cfg.thorough, c.gi, table_kind);
@@ -1549,6 +1550,16 @@ static void case_features(const Case &c) {
   if (c.gi.family == 9 && n >= 65) f.insert("textlike_n65");
   if (c.gi.maxlen >= 128) f.insert("maxlen_ge128");
   if (c.gi.maxlcp >= 128) f.insert("lcp_ge128");
+  if (c.gi.maxlcp >= 16384) {
+    f.insert("lcp_ge16384");
+    // some adjacent pair shares a prefix whose variable-byte code has a zero byte after its first byte (F22)
+    for (size_t i = 1; i < n; i++) {
+      size_t l = 0;
+      while (l < c.S[i].size() && l < c.S[i - 1].size() && c.S[i][l] == c.S[i - 1][l]) l++;
+      for (size_t v = l >> 7; v >= 128; v >>= 7)
+        if ((v & 127) == 0) f.insert("lcp_vbyte_inner_zero");
+    }
+  }
   if (c.S[n - 1].size() == 1) f.insert("last_len1");
   if (c.p.memalloc != 32768) f.insert("memalloc_small");
   if (has_bucket(c.p.kind)) {
